@@ -646,7 +646,11 @@ func hashStr(x string) uint64 {
 }
 
 // StepOnce performs one scheduling step. It returns false when nothing at all is enabled.
-func (s *Sim) StepOnce() bool {
+func (s *Sim) StepOnce() bool { return s.StepOpt(true) }
+
+// StepOpt: with allowTime=false the step never advances time (due timers still fire) and
+// returns false when only a time advance would be possible.
+func (s *Sim) StepOpt(allowTime bool) bool {
 	synctest.Wait()
 	s.collectDone()
 	for _, f := range s.observe {
@@ -703,7 +707,7 @@ func (s *Sim) StepOnce() bool {
 		}
 	}
 	// 6. due timers / time advance
-	if t := s.nextTimer(false); t != nil {
+	if t := s.nextTimer(false); t != nil && (allowTime || !t.At.After(time.Now())) {
 		t := t
 		w := s.Knobs.WTime
 		if len(cands) == 0 {
